@@ -833,7 +833,7 @@ class MasterDriver:
         future = sorted(d for d in deadlines if d > now)
         if future and rng.random() < 0.6:
             d = rng.choice(future[:4])
-            dt = max(0.1, d - now + rng.choice([-2.0, -0.5, 0.5, 2.0, 10.0]))
+            dt = max(0.1, d - now + rng.choice([-200.0, -30.0, -2.0, -0.5, 0.5, 2.0, 10.0]))
         else:
             dt = rng.choice([0.5, 1, 3, 10, 40, 100, 400, 86400])
         self.clock.advance(dt)
